@@ -132,6 +132,9 @@ class C05(engine.Property):
                 "hashseed": rng.randint(0, 4294967295),
             }
         cfg["universes_as_ends"] = rng.random() < 0.3
+        if rng.random() < 0.12:
+            # vertices with value equality: equal-but-distinct ends, hash by value
+            cfg["vertex_classes"] = ["EqVertex"] if rng.random() < 0.5 else ["EqVertex", "Vertex"]
         return cfg
 
     def start(self, cfg):
